@@ -123,9 +123,13 @@ def monitor(case, impl, model):
     codec, toks = parse_case(case)
     s, nerr = stream_of(toks)
     ents = entries(impl)
-    if ents.count("X") != nerr:
+    upto = ents.index("N") + 1 if "N" in ents else len(ents)
+    if ents[:upto].count("X") != nerr:
         return False
     items = [e for e in ents if e not in ("P", "X")]
+    if "N" in items:
+        # the property text ends at the first None; what later polls return is compared with the model (C13_fused), not judged here
+        items = items[:items.index("N") + 1]
     if codec == "bytes":
         # frames are whatever was buffered: their concatenation is the stream, then None (3 polls)
         pos = 0
@@ -137,13 +141,13 @@ def monitor(case, impl, model):
                 return False
             pos += n
             k += 1
-        return pos == len(s) and items[k:] == ["N", "N", "N"]
+        return pos == len(s) and items[k:] == ["N"]
     fr, ef, endless = reference(codec, s)
     if endless:
         # provided decode_eof on a truncated frame: the codec answers Err forever, Framed relays it
         n = len(items) - len(fr)
         return len(ents) == fuel_of(toks) and n > 0 and items == fr + ["IR"] * n
-    return items == fr + ef + ["N", "N", "N"]
+    return items == fr + ef + ["N"]
 
 
 def compare_exact(i, m):
@@ -216,7 +220,8 @@ def enum_cases(codec, L, Lp, rng):
                 if n <= Lp:
                     pmasks = range(1 << reads)
                 else:
-                    pmasks = {0, (1 << reads) - 1, rng.getrandbits(reads), rng.getrandbits(reads)}
+                    pmasks = {0, (1 << reads) - 1, rng.getrandbits(reads), rng.getrandbits(reads)} if n <= Lp + 1 \
+                        else {rng.getrandbits(reads), rng.getrandbits(reads)}
                 for pm in pmasks:
                     base = []
                     for i in range(reads):
@@ -362,25 +367,25 @@ def streams(ctx):
     rng = ctx.rng
     enum = eof_marker_cases()
     # (codec, max length, full Pending product up to)
-    plan = [("lines", 4, 3), ("lp", 4, 2), ("lpd", 3, 2), ("bytes", 5, 3)] if quick else \
-           [("lines", 6, 4), ("lp", 5, 4), ("lpd", 4, 3), ("bytes", 7, 4)]
+    plan = [("lines", 5, 3), ("lp", 4, 3), ("lpd", 3, 2), ("bytes", 6, 3)] if quick else \
+           [("lines", 6, 4), ("lp", 5, 4), ("lpd", 4, 3), ("bytes", 8, 4)]
     for codec, L, Lp in plan:
         enum += enum_cases(codec, L, Lp, rng)
     s1 = Stream("c13enum", "c13", enum, monitor=monitor, nontrivial=nontrivial, shrink=shrink, compare=compare_exact,
                 finding_key=finding_key, to_coq=to_coq, coq_imports="From AN Require Import Model.Lines Model.Framed.",
-                exhaustive=False, timeout=1500,
+                exhaustive=False, timeout=300 if quick else 1500,
                 describe="per codec: all strings of length <= L over its alphabet x all compositions x Pending placements x "
                          "(no | one) I/O error position; plan (codec, L, full Pending product up to) = %s; %d cases" % (plan, len(enum)))
-    nr = 60 if quick else 1500
+    nr = 150 if quick else 3000
     rnd = [rand_case(c, rng) for c in ("lines", "lp", "bytes", "lines", "lp") for _ in range(nr)]
     s2 = Stream("c13rand", "c13", rnd, monitor=monitor, nontrivial=nontrivial, shrink=shrink, compare=compare_exact,
-                finding_key=finding_key, timeout=1500,
+                finding_key=finding_key, timeout=300 if quick else 1500,
                 describe="%d random streams of 1..20 KiB (lines up to 12 KiB long, CRLF, invalid UTF-8; lp frames with bad headers "
                          "and truncation; raw bytes), chunk sizes 1..1024, Pending and one I/O error placed at random" % len(rnd))
-    nb = 40 if quick else 800
+    nb = 100 if quick else 2000
     big = [rand_case(c, rng, big=True) for c in ("lines", "lp") for _ in range(nb)]
     s3 = Stream("c13big", "c13", big, monitor=monitor, nontrivial=nontrivial, shrink=shrink, compare=compare_items,
-                finding_key=finding_key, timeout=1500,
+                finding_key=finding_key, timeout=300 if quick else 1500,
                 describe="%d random streams delivered in chunks of up to 9000 bytes; the mock hands over what fits into the room "
                          "Framed offers (so the real reserve/capacity logic decides the chunking); frames compared" % len(big))
     return [s1, s2, s3]
